@@ -6,7 +6,6 @@ CONSTANTS
   MaxKeys = 4
   EmptyTrieVerifies = TRUE
   CheckValueDepth = TRUE
-  IgnoreCachedHash = TRUE
 INIT Init
 NEXT Next
 VIEW view
